@@ -1,6 +1,7 @@
 package props
 
 import (
+	"regexp"
 	"go/constant"
 	"fmt"
 	"go/ast"
@@ -63,6 +64,8 @@ func runC19(p *core.Program, r *core.Report) {
 	c19Wrappers(p, r)
 	c19Fields(p, r)
 	c19Pad(p, r)
+	c19Verbs(p, r)
+	c19Base10(p, r)
 	c19Layouts(p, r)
 	c19FormatParse(p, r)
 }
@@ -1042,6 +1045,96 @@ func c19Wrappers(p *core.Program, r *core.Report) {
 		})
 		if n > 0 {
 			fileProbs(r, "C19.wrappers", core.FuncName(fi.Obj), p.Pos(fi.Decl.Pos()), probs, "the instant is passed through unchanged")
+		}
+	}
+}
+
+var c19VerbRe = regexp.MustCompile(`%([-+# 0]*)(\d+)?(?:\.\d+)?([a-zA-Z%])`)
+
+// c19Verbs: fixed-width numeric fields printed through fmt are zero-padded. In util/dateutil every
+// integer verb of a constant format that carries a width also carries the 0 flag (and no '-'):
+// "%2d" renders 9 as " 9", which is neither the layout the helpers promise nor parseable back.
+func c19Verbs(p *core.Program, r *core.Report) {
+	pk := p.Pkg("util/dateutil")
+	if pk == nil {
+		return
+	}
+	for _, fi := range p.Funcs {
+		if fi.Pkg != pk || fi.Decl.Body == nil {
+			continue
+		}
+		info := fi.Pkg.TypesInfo
+		verbs := 0
+		var probs []string
+		ast.Inspect(fi.Decl.Body, func(n ast.Node) bool {
+			call, ok := n.(*ast.CallExpr)
+			if !ok || len(call.Args) == 0 {
+				return true
+			}
+			if !(isCallTo(info, call, "fmt", "Sprintf") || isCallTo(info, call, "fmt", "Fprintf") || isCallTo(info, call, "fmt", "Appendf")) {
+				return true
+			}
+			fa := call.Args[0]
+			if !isCallTo(info, call, "fmt", "Sprintf") {
+				if len(call.Args) < 2 {
+					return true
+				}
+				fa = call.Args[1]
+			}
+			tv, ok := info.Types[fa]
+			if !ok || tv.Value == nil || tv.Value.Kind() != constant.String {
+				return true
+			}
+			for _, m := range c19VerbRe.FindAllStringSubmatch(constant.StringVal(tv.Value), -1) {
+				if m[3] != "d" || m[2] == "" {
+					continue
+				}
+				verbs++
+				if !strings.Contains(m[1], "0") || strings.Contains(m[1], "-") {
+					probs = append(probs, fmt.Sprintf("%s: the verb %q pads with blanks, not zeros", p.Pos(call.Pos()), m[0]))
+				}
+			}
+			return true
+		})
+		if verbs > 0 {
+			fileProbs(r, "C19.fields", core.FuncName(fi.Obj)+" verbs", p.Pos(fi.Decl.Pos()), probs, "width verbs are zero-padded")
+		}
+	}
+}
+
+// c19Base10: the digits of a date field are decimal digits. Every strconv.ParseInt/ParseUint in
+// util/dateutil names base 10 (strconv.Atoi does by definition): base 0 reads the zero-padded
+// fields the formatter writes ("08", "09") as octal.
+func c19Base10(p *core.Program, r *core.Report) {
+	pk := p.Pkg("util/dateutil")
+	if pk == nil {
+		return
+	}
+	for _, fi := range p.Funcs {
+		if fi.Pkg != pk || fi.Decl.Body == nil {
+			continue
+		}
+		info := fi.Pkg.TypesInfo
+		parses := 0
+		var probs []string
+		ast.Inspect(fi.Decl.Body, func(n ast.Node) bool {
+			call, ok := n.(*ast.CallExpr)
+			if !ok {
+				return true
+			}
+			switch {
+			case isCallTo(info, call, "strconv", "Atoi"):
+				parses++
+			case (isCallTo(info, call, "strconv", "ParseInt") || isCallTo(info, call, "strconv", "ParseUint")) && len(call.Args) == 3:
+				parses++
+				if b, ok := constIntOf(info, call.Args[1]); !ok || b != 10 {
+					probs = append(probs, fmt.Sprintf("%s: a date field is parsed with base %s: zero-padded fields such as \"08\" are read as octal", p.Pos(call.Pos()), types.ExprString(call.Args[1])))
+				}
+			}
+			return true
+		})
+		if parses > 0 {
+			fileProbs(r, "C19.format-parse", core.FuncName(fi.Obj)+" base", p.Pos(fi.Decl.Pos()), probs, "fields are parsed as decimal numbers")
 		}
 	}
 }
